@@ -54,6 +54,7 @@ except Exception:                     # pragma: no cover
 PROP = "C09"
 KEY_M = "m-prefix-export-named-fN-collides"
 KEY_DS = "data-segment-array-undeclared-in-split-file"
+KEY_AI = "memory-init-of-active-segment-undeclared-in-external-data-modes"
 TS = (1, 2, 3, 16)
 
 
@@ -323,19 +324,33 @@ def data_mode_part(chk, env, tier, pr, broken, gen):
     by = {}
     reported = 0
     runs = 0
+    known_ai = 0
     for r in res:
         if r.get("error"):
             chk.notes.append({"data-mode tool error": "%s: %s" % (r["id"], r["error"])})
             continue
         runs += 1
-        base_id = r["id"].replace("+d=gnu-ld", "")
-        mode = "gnu-ld" if r["id"].endswith("+d=gnu-ld") else "arrays"
+        wo = list(r["spec"].get("w2c2_opts") or [])
+        mode = wo[wo.index("-d") + 1] if "-d" in wo else "arrays"
+        base_id = r["id"].replace("+d=" + mode, "")
         by.setdefault(base_id, {})[mode] = r
         b = r["builds"][0]
         diffs = b["diffs"] + b.get("init_diffs", [])
-        chk.count_case(("data-mode", r["id"]), True, None)
+        chk.count_case(("data-mode", base_id, mode), True, None)
         if b["real"]["instantiate"][0] in ("w2c2_error", "build_error"):
             diffs = [{"kind": b["real"]["instantiate"][0], "real": b["real"]["instantiate"][1][:300]}]
+            if mode != "arrays" and active_segment_used_by_bulk_op(ec.load_module(r["spec"])[0]) and \
+                    re.search(r"[‘'`]d\d+[’'`] undeclared|undeclared identifier 'd\d+'", b["real"]["instantiate"][1]):
+                known_ai += 1
+                chk.violation(KEY_AI,
+                              "a function applies memory.init / data.drop to an ACTIVE data segment (valid WebAssembly: the segment counts as dropped after "
+                              "instantiation, memory.init of 0 bytes succeeds): with -d gnu-ld / sectcreate1 / sectcreate2 the pointer variable d<k> is "
+                              "declared (wasmCWriteDataSegments, header) and initialised (InitMemories) for PASSIVE segments only, so the function body "
+                              "`LOAD_DATA(mem, dst, d<k>+src, n)` refers to an undeclared identifier and the output does not compile (-d arrays compiles); "
+                              "first module %s: %s" % (base_id, b["real"]["instantiate"][1][:200]),
+                              {"kind": "data-mode", "module": r["id"], "spec": r["spec"], "mode": mode, "disagreement": diffs[0],
+                               "replay_cmd": "python3 tools/check.py C09 --replay <this file>"}, True)
+                continue
         if diffs and reported < 6:
             reported += 1
             d0 = diffs[0]
@@ -344,8 +359,9 @@ def data_mode_part(chk, env, tier, pr, broken, gen):
                           % (base_id, mode, d0["kind"], d0.get("real"), d0.get("v8", d0.get("spec"))),
                           {"kind": "data-mode", "module": r["id"], "spec": r["spec"], "mode": mode, "disagreement": d0,
                            "replay_cmd": "python3 tools/check.py C09 --replay <this file>"}, True)
+    chk.coverage["data_mode_modules_masked_by_" + KEY_AI] = known_ai
     for base_id, d in by.items():
-        if len(d) == 2:
+        if len(d) == 2 and tuple(d["gnu-ld"]["builds"][0]["real"]["instantiate"])[0] not in ("w2c2_error", "build_error"):
             a, g = d["arrays"]["builds"][0]["real"], d["gnu-ld"]["builds"][0]["real"]
             for fld in ("instantiate", "results", "mem", "all_globals"):
                 if a.get(fld) != g.get(fld) and reported < 6 and tuple(a["instantiate"]) == ("ok",):
@@ -359,6 +375,19 @@ def data_mode_part(chk, env, tier, pr, broken, gen):
                          "data_mode_text_histogram": tt["hist"], "data_mode_text_modes": list(initmem.MODES),
                          "data_mode_e2e_runs": runs, "data_mode_e2e_modules": len(by), "data_mode_e2e_modes": ["arrays", "gnu-ld"]})
     chk.coverage["disagreements_checked"] = chk.coverage.get("disagreements_checked", 0) + tt["cases"] + runs
+
+
+def active_segment_used_by_bulk_op(m):
+    act = set(k for k, d in enumerate(m.datas) if d.mode == "active")
+
+    def walk(body):
+        for ins in body:
+            if ins.op in ("memory.init", "data.drop") and ins.imm[0] in act:
+                return True
+            if (ins.body and walk(ins.body)) or (ins.else_body and walk(ins.else_body)):
+                return True
+        return False
+    return any(walk(f.body) for f in m.funcs)
 
 
 def replay_data_mode(r):
